@@ -158,10 +158,8 @@ func c11container(x *mc.X) {
 	x.Note("result", fmt.Sprintf("%s exit=%d %q returned=%v", statusName(res.Status), res.ExitStatus, res.Error, returned))
 	c11judge(x, who, pt.name, prog, res, returned, nonce)
 	if returned {
-		var perr error
-		ok := withTimeout(horizon, func() { perr = env.c.Ping() })
-		if !ok || perr != nil {
-			x.Failf("C11/"+who+"/unusable-after-cancel/"+pt.name, "cancel %s, program %s: afterwards ping says %v (returned %v)", pt.name, prog, perr, ok)
+		if perr := envUsable(env.c); perr != nil {
+			x.Failf("C11/"+who+"/unusable-after-cancel/"+pt.name, "cancel %s, program %s: the next request afterwards: %v", pt.name, prog, perr)
 		}
 	}
 	x.Distinct(fmt.Sprint(who, pt.name, prog, res.Status))
